@@ -97,7 +97,14 @@ func runReplayTest(e *replayEntry, model map[string]string) (confirmed bool, out
 	if len(s) > 6000 {
 		s = s[:6000] + "\n...(truncated)"
 	}
-	return strings.Contains(s, "--- FAIL: TestVerifReplay"), s
+	failed := strings.Contains(s, "--- FAIL: TestVerifReplay")
+	if !failed && !strings.Contains(s, "[build failed]") && !strings.Contains(s, "[setup failed]") && strings.Contains(s, "FAIL\t") &&
+		(strings.Contains(s, "fatal error:") || strings.Contains(s, "panic:")) {
+		// the test binary died (runtime fatal error or an unrecovered panic) while running the
+		// witnesses against the real code: that is a failure of the code, not of the harness
+		failed = true
+	}
+	return failed, s
 }
 
 func tryReplay(prop string, r *Result, model map[string]string) (bool, string) {
